@@ -50,6 +50,9 @@ type srvWorld struct {
 	Temp keyPair
 	Srv  keyPair
 	open bool
+	// most response bytes written by one handler while a server mutex was held (meaningful in sequential use only)
+	HeldWrite   int
+	HeldWriteAt string
 }
 
 var sc = server.VerifConsts()
@@ -190,8 +193,36 @@ func (w *srvWorld) httpDo(method, target string, body []byte) (int, []byte) {
 		req.Header.Set("Content-Type", "application/json")
 	}
 	rec := httptest.NewRecorder()
-	w.S.VerifServeHTTP(rec, req)
+	pw := &probingWriter{ResponseRecorder: rec, w: w}
+	w.S.VerifServeHTTP(pw, req)
+	if pw.held > w.HeldWrite {
+		w.HeldWrite, w.HeldWriteAt = pw.held, method+" "+target
+	}
 	return rec.Code, rec.Body.Bytes()
+}
+
+// probingWriter counts the response bytes a handler writes while a server mutex is held. net/http buffers 4 KiB
+// per response; anything beyond that goes to the socket inside Write and blocks for as long as the client does
+// not read - with the mutex held, that wedges every other request and the shutdown.
+type probingWriter struct {
+	*httptest.ResponseRecorder
+	w    *srvWorld
+	held int
+}
+
+func (p *probingWriter) Write(b []byte) (int, error) {
+	if mu, smu := p.w.S.VerifTryLocks(); !mu || !smu {
+		p.held += len(b)
+	}
+	return p.ResponseRecorder.Write(b)
+}
+
+// heldWriteViolation reports a response of more than the HTTP server's buffer written under a mutex.
+func (w *srvWorld) heldWriteViolation() (string, string) {
+	if w.HeldWrite > 4096 {
+		return "response-written-while-holding-a-server-mutex", fmt.Sprintf("%s: %d bytes of the response were written while a server mutex was held (the HTTP server buffers 4096; a client that does not read blocks the handler inside Write)", w.HeldWriteAt, w.HeldWrite)
+	}
+	return "", ""
 }
 
 func (w *srvWorld) register(gca keyPair, signer glow.PrivateKey) int {
@@ -424,6 +455,29 @@ func (w *srvWorld) checkPublic(m *srvModel) (sig, what string) {
 			if rr.Reports[i].PowerOutput != want {
 				return "public/recent-value", fmt.Sprintf("recent-reports slot %d of id %d has power %d, model %d", i, id, rr.Reports[i].PowerOutput, want)
 			}
+		}
+	}
+	// keys that name no device: those of banned devices and one that was never authorized. A lookup by such a key
+	// must be refused, whatever other devices exist (a missing index entry must not read as short id 0).
+	strangers := append([]glow.PublicKey{key("never-authorized").Pub}, m.Gone...)
+	for _, pk := range strangers {
+		live := false
+		for _, ea := range m.Devices {
+			if ea.PublicKey == pk {
+				live = true
+			}
+		}
+		if live {
+			continue
+		}
+		if code, rr := w.recentReports(pk); code == 200 {
+			n := 0
+			for _, r := range rr.Reports {
+				if r.PowerOutput != 0 {
+					n++
+				}
+			}
+			return "public/recent-reports-for-a-key-that-names-no-device", fmt.Sprintf("recent-reports for key %x (banned or never authorized) answered 200 with %d non-empty reports", pk[:4], n)
 		}
 	}
 	// weekly statistics of both live weeks
